@@ -311,16 +311,17 @@ def writeIndex (cs : List Rec) (unc : Nat) : List UInt8 := serializeIndex (build
 
 /-! ## Conjoin (`planTableConjoin`): concatenate records, renumber ordinals, re-sort tuples -/
 
+/-- the chunk of ordinal `o`: suffix and length by ordinal, prefix through the tuple that carries `o` -/
+def recAt (ix : Idx) (o : Nat) : Option Rec :=
+  match ix.suf[o]?, ix.len[o]? with
+  | some s, some l =>
+    match (ix.pfx.toList.zip ix.ord.toList).find? (fun (_, o') => o' = o) with
+    | some (p, _) => some ⟨⟨p, s⟩, l⟩
+    | none => none
+  | _, _ => none
+
 /-- chunk list (in ordinal order) that an index describes -/
-def recsOf (ix : Idx) : List Rec :=
-  (List.range ix.count).filterMap (fun o =>
-    match ix.suf[o]?, ix.len[o]? with
-    | some s, some l =>
-      -- the prefix of ordinal o is found through the tuple that carries it
-      match (ix.pfx.toList.zip ix.ord.toList).find? (fun (_, o') => o' = o) with
-      | some (p, _) => some ⟨⟨p, s⟩, l⟩
-      | none => none
-    | _, _ => none)
+def recsOf (ix : Idx) : List Rec := (List.range ix.count).filterMap (recAt ix)
 
 /-- `planTableConjoin` on already ordered sources: the merged index (tie order of this model). -/
 def conjoin (srcs : List Idx) : Idx :=
@@ -417,10 +418,15 @@ def sortStaged : List (Addr × Nat × Nat) → List (Addr × Nat × Nat)
   | [] => []
   | x :: xs => insertStaged x (sortStaged xs)
 
+/-- running end offsets: `endOffset += bs.length; writeUint64(endOffset)` -/
+def spanEnds : Nat → List Nat → List Nat
+  | _, [] => []
+  | acc, l :: ls => (acc + l) :: spanEnds (acc + l) ls
+
 /-- `archiveWriter.writeIndex` on staged byte-span lengths and staged chunks (addr, dict, data) -/
 def arcBuild (spanLens : List Nat) (staged : List (Addr × Nat × Nat)) : Arc :=
   let st := sortStaged staged
-  { spanEnd := ((spanLens.foldl (fun (acc : List Nat × Nat) l => (acc.1 ++ [acc.2 + l], acc.2 + l)) ([], 0)).1).toArray,
+  { spanEnd := (spanEnds 0 spanLens).toArray,
     pfx := (st.map (·.1.pre)).toArray, refs := (st.map (·.2)).toArray, suf := (st.map (·.1.suf)).toArray }
 
 /-- archive index section bytes: span ends, prefixes, chunk refs, suffixes -/
